@@ -15,6 +15,26 @@ CLAIMED = {
          "Trusted: Coq kernel+vm_compute; harness tools/corr/wlayer.py; the hand-written model is tied by correspondence only (sampled, 1e-11); "
          "PDG.v is the specification. The Kronecker-delta statement is checked on real runs (patrol), its Lagrange-basis theorem is part of C19.",
          "4 C02"),
+ "C13": ("Coq theorems (ring/field over an abstract field; finite case analysis nf=3..6 x pid x beam) on the hand-written coupling/weight model; "
+         "model tied to the code by differential correspondence (vm_compute, exact rationals)",
+         "Proof: e+(P)=e-(-P) and nubar(P)=nu(-P) for every weight incl. the fl11 class; NC weight = EM weight + eta_gammaZ*(...) hence exact "
+         "decoupling at eta=0 and vanishing parity-violating weights in EM; CC hadronic weights are beam independent and the beam<->antibeam exchange "
+         "charge-conjugates every parton map (even/odd/singlet/valence/gluon/heavy) with the F3 sign, arbitrary CKM, all heavyness masks; equal-charge "
+         "quarks get equal NC weights. Pairs of real runs (all order keys incl. scale variations) are compared on every run.",
+         "Trusted: Coq kernel+vm_compute; harness; hand-written model tied by sampled correspondence (1e-11); lifting weights->results uses that kernels "
+         "depend on the beam only through the weights (checked by the Combiner correspondence).", "4 C13"),
+ "C07": ("Coq theorems (list/monad algebra + ring) on the hand-written Combiner model; model tied to the code by differential correspondence",
+         "Proof: collect(full) = collect(massless) ++ collect(massive) and the isospin/drop-empty post-processing distributes, so the linear meaning adds; "
+         "with no massive quark total and light collect identical lists; in fixed-flavour configurations total = light ++ F_h over the massive h (nf=3..6); "
+         "the six coupling-restricted get_weight's sum to the unrestricted one and every NC weight builder is additive. Real runs compare the sums entry-wise.",
+         "Trusted: Coq kernel+vm_compute; harness; model tied by sampled correspondence; linearity of compute_local in the kernel list (C01). For NfFF>=4 the "
+         "massless heavy quarks are slices of light, so the partition proved is over the massive quarks only (DESIGN 4 C07).", "4 C07"),
+ "C12": ("Coq theorems (field) on the functional apply_isospin model + regenerated named-target table compared with the documented table by vm_compute; "
+         "model tied to the code by differential correspondence",
+         "Proof: for every parton map, PDF vector and Z, A<>0, contracting the rotated map equals contracting the proton map with the mixed u/d PDFs; neutron = swap, "
+         "proton = identity; every kernel is rotated exactly once; the target table parsed from compatibility.py equals the documented one and unknown names are rejected. "
+         "Target runs are compared with rotated proton runs on every run.",
+         "Trusted: Coq kernel+vm_compute; tools/tables.py; harness; model tied by sampled correspondence (the aliasing defect fixed in b62348b2 was found by it).", "4 C12"),
 }
 PENDING = "check not built yet in this snapshot (machinery under construction, see DESIGN.md section 4)"
 
